@@ -26,6 +26,10 @@ from infocf.log_setup import get_logger
 
 logger = get_logger(__name__)
 
+# slot of the query's CNFs in v_cnf_dict / f_cnf_dict; not an integer, so it cannot collide
+# with the key of a conditional of the belief base (0 is a legal key)
+QUERY_KEY = "query"
+
 
 class LexInf(Inference):
     """
@@ -81,12 +85,12 @@ class LexInf(Inference):
         # self._translation_start()
         tseitin_transformation = TseitinTransformation(self.epistemic_state)
         translated_query = tseitin_transformation.query_to_cnf(query)
-        self.epistemic_state["v_cnf_dict"][0] = translated_query[0]
-        self.epistemic_state["f_cnf_dict"][0] = translated_query[1]
+        self.epistemic_state["v_cnf_dict"][QUERY_KEY] = translated_query[0]
+        self.epistemic_state["f_cnf_dict"][QUERY_KEY] = translated_query[1]
         wcnf_v = WCNF()
         wcnf_f = WCNF()
-        [wcnf_v.append(c) for c in self.epistemic_state["v_cnf_dict"][0]]
-        [wcnf_f.append(c) for c in self.epistemic_state["f_cnf_dict"][0]]
+        [wcnf_v.append(c) for c in self.epistemic_state["v_cnf_dict"][QUERY_KEY]]
+        [wcnf_f.append(c) for c in self.epistemic_state["f_cnf_dict"][QUERY_KEY]]
         if not weakly:
             result = self._rec_inference(
                 wcnf_v, wcnf_f, len(self.epistemic_state["partition"]) - 1, deadline
